@@ -265,8 +265,12 @@ class Check(object):
 
         def on_alarm(_sig, _frm):
             raise CaseTimeout()
+        # two clocks: CPU time of this process (a loop that does not terminate burns it, a loaded
+        # machine does not) and, much more generous, wall time (for a case that blocks)
         old = signal.signal(signal.SIGALRM, on_alarm)
-        signal.setitimer(signal.ITIMER_REAL, self.case_timeout)
+        oldv = signal.signal(signal.SIGVTALRM, on_alarm)
+        signal.setitimer(signal.ITIMER_REAL, self.case_timeout * 6)
+        signal.setitimer(signal.ITIMER_VIRTUAL, self.case_timeout)
         try:
             with quiet():
                 return self.impl(case)
@@ -275,8 +279,10 @@ class Check(object):
         except Exception as exc:      # the executor itself must not die on a mutant
             return {"harness_exception": exc_name(exc), "trace": traceback.format_exc()[-1500:]}
         finally:
+            signal.setitimer(signal.ITIMER_VIRTUAL, 0)
             signal.setitimer(signal.ITIMER_REAL, 0)
             signal.signal(signal.SIGALRM, old)
+            signal.signal(signal.SIGVTALRM, oldv)
 
 
 class CaseTimeout(BaseException):
@@ -302,6 +308,21 @@ def _worker_run(case):
     except Exception as exc:
         fails = ["oracle crashed: %s %s" % (exc_name(exc), traceback.format_exc()[-800:])]
     return obs, fails
+
+
+def _pool_map(pool, cases, check, chunksize=None):
+    """pool.map with a deadline: a worker process that dies (interpreter crash) loses its task and
+    a plain map would wait for ever. Exceeding the deadline is infrastructure trouble (exit 2)."""
+    if not cases:
+        return []
+    if chunksize is None:
+        chunksize = max(1, len(cases) // 64)
+    deadline = 300 + len(cases) * max(1.0, check.case_timeout) / 8.0
+    try:
+        return pool.map_async(_worker_run, cases, chunksize=chunksize).get(timeout=deadline)
+    except multiprocessing.TimeoutError:
+        pool.terminate()
+        raise Infra("the case pool did not finish within %ds (a worker process died or hangs)" % deadline)
 
 
 def load_known_findings(prop):
@@ -330,7 +351,7 @@ def write_replay(prop, name, payload):
     return os.path.relpath(path, VERIF)
 
 
-def main(check, argv):
+def _main(check, argv):
     t0 = time.time()
     prop = check.prop
     if len(argv) >= 2 and argv[0] == "--replay":
@@ -380,8 +401,22 @@ def main(check, argv):
         results = [_worker_run(c) for c in cases]
     else:
         ctx = multiprocessing.get_context("fork")
-        with ctx.Pool(nproc, initializer=_worker_init, initargs=(check,)) as pool:
-            results = pool.map(_worker_run, cases, chunksize=max(1, len(cases) // (nproc * 8)))
+        pool = ctx.Pool(nproc, initializer=_worker_init, initargs=(check,))
+        try:
+            results = _pool_map(pool, cases, check, chunksize=max(1, len(cases) // (nproc * 8)))
+            pool.close()
+            pool.join()
+        finally:
+            pool.terminate()
+
+    # a case that ran into the time limit in a worker is run once more here, alone: only a case
+    # that does not finish twice counts as "did not terminate"
+    if nproc != 1:
+        _worker_init(check)
+    results = list(results)
+    for i, (obs, _f) in enumerate(results):
+        if isinstance(obs, dict) and obs.get("timeout"):
+            results[i] = _worker_run(cases[i])
 
     model_ok = ok
     disagreements = []
@@ -468,14 +503,26 @@ def main(check, argv):
             extra = check.generate("thorough", random.Random(seed + 7919))[:20000]
             ctx = multiprocessing.get_context("fork")
             t_search = time.time()
-            with ctx.Pool(min(16, os.cpu_count() or 1), initializer=_worker_init, initargs=(check,)) as pool:
-                for c, (obs, fails) in zip(extra, pool.imap(_worker_run, extra, chunksize=16)):
-                    fails = [f for f in fails if check.finding_key(c, obs, f) not in known_keys]
-                    if fails:
-                        found = (c, obs, fails)
+            budget = float(os.environ.get("VERIF_SEARCH_S", "90"))
+            # batches that run to completion: Pool.terminate() with tasks still queued can
+            # dead-lock (the task handler thread and terminate() wait for the same queue lock)
+            pool = ctx.Pool(min(16, os.cpu_count() or 1), initializer=_worker_init, initargs=(check,))
+            try:
+                for lo in range(0, len(extra), 256):
+                    batch = extra[lo:lo + 256]
+                    res = _pool_map(pool, batch, check)
+                    for c, (obs, fails) in zip(batch, res):
+                        if isinstance(obs, dict) and obs.get("timeout"):
+                            obs, fails = _worker_run(c)       # confirm alone, see above
+                        fails = [f for f in fails if check.finding_key(c, obs, f) not in known_keys]
+                        if fails:
+                            found = (c, obs, fails)
+                            break
+                    if found or time.time() - t_search > budget:
                         break
-                    if time.time() - t_search > float(os.environ.get("VERIF_SEARCH_S", "90")):
-                        break
+                pool.close()
+                pool.join()
+            finally:
                 pool.terminate()
         if found:
             path = write_replay(prop, "oracle_search_seed%d" % seed, {
@@ -530,6 +577,18 @@ def main(check, argv):
           % (prop, tier, len(cases), validated, len(discharged), len(check.obligations),
              len(violations), wall))
     return 1 if violations else 0
+
+
+def main(check, argv):
+    """exit 0 = held, 1 = VIOLATION printed, 2 = the machinery itself could not run."""
+    try:
+        return _main(check, argv)
+    except Infra as exc:
+        print("INFRA: %s" % exc)
+        return 2
+    except subprocess.TimeoutExpired as exc:
+        print("INFRA: timeout: %s" % exc)
+        return 2
 
 
 def replay(check, path):
